@@ -352,6 +352,9 @@ def programs() -> List[Program]:
     out.append(Program("loop-in-loop", {"O": [0, 0]}, [("loop", "i", 3, 0, 1, [("loop", "j", 4, 0, 1, [("add", O0, "j", None), ("add", O1, "i", None)], "ctx"), ("add", O1, 100, None)], "ctx")]))
     out.append(Program("if-in-loop", {"A": [1, 0, 1, 1, 0], "O": [0, 0]},
                        [("loop", "i", 5, 0, 1, [("if", "eq", ("A", "i"), 1, [("add", O0, 1, None)], "ctx"), ("if", "ez", ("A", "i"), None, [("add", O1, "i", None)], "cb")], "ctx")]))
+    out.append(Program("index-conditions", {"A": [3, 0, 2], "O": [0, 0, 0]},
+                       [("loop", "i", 4, 0, 1, [("if", "ez", "i", None, [("add", O0, 1, None)], "ctx"), ("add", O1, A0, None), ("if", "nz", "i", None, [("add", O2, A2, None)], "cb"),
+                                                ("if", "eq", "i", 2, [("add", O0, 10, None)], "ctx"), ("if", "lt", "i", A2, [("add", O2, 100, None)], "ctx")], "body")]))
     out.append(Program("loop-in-if", {"A": [1, 0], "O": [0, 0]},
                        [("if", "nz", A0, None, [("loop", "i", 3, 0, 1, [("add", O0, 2, None)], "ctx")], "ctx"), ("if", "nz", A1, None, [("loop", "i", 3, 0, 1, [("add", O1, 2, None)], "body")], "cb")]))
     out.append(Program("if-in-if", {"A": [3, 5, 3, 0], "O": [0, 0, 0]},
@@ -398,6 +401,8 @@ def long_runs(rounds: int = 40) -> List[Program]:
         "add of a future with a modulus": ("add", O1, A0, 7),
         "measure into a future": ("meas", O1, "future"),
         "if inside a loop": ("loop", "i", 2, 0, 1, [("if", "nz", A0, None, bump, "ctx")], "ctx"),
+        "add of the constant zero": ("add", O0, 0, None),
+        "condition on the loop index, then a temporary": ("loop", "i", 3, 0, 1, [("if", "ez", "i", None, bump, "ctx"), ("add", O1, A0, None), ("if", "nz", "i", None, bump, "cb")], "body"),
         "loop_until inside a loop": ("loop", "i", 2, 0, 1, [("until", 2, bump, A1, 0)], "ctx"),
     }
     out = [Program(f"{rounds} x {name}", {"A": [3, 0], "O": [0, 0]}, [st] * rounds) for name, st in kinds.items()]
